@@ -158,9 +158,6 @@ impl C41 {
             }
             if ctx.loops_before.is_empty() {
                 obs.count("mismatch_before_any_loop(C15 territory, not judged)", 1);
-                if std::env::var("VERIF_DEBUG_C41").is_ok() {
-                    eprintln!("BEFORE-LOOP probe {} var {} inferred {} rt {}\n{}", m.id, m.var, m.inferred, m.rt, ex.text);
-                }
                 continue;
             }
             let v = m.var as usize;
